@@ -1,7 +1,9 @@
 ----------------------------- MODULE InitTrace -----------------------------
 (* Trace specification for the start-up initialisation (C05).                             *)
 (* hdr: cfg (block configurations as in Init.tla), order (creation order), cbfail (the    *)
-(* first evaluation of a combinational block raises).                                     *)
+(* first evaluation of a combinational block fails, or some other block cannot be         *)
+(* initialised), first (0 or the block that receives an external event right after the    *)
+(* blocks were started).                                                                  *)
 (* lines: call(b, r) - routine r of block b was entered (restore / async / regular /      *)
 (*        initdef / event);  out(b, v) - block b was assigned an output with source tag v;*)
 (*        wait(ok, t, outs, ready, cb, err) - wait_init() returned (ok) or raised.        *)
@@ -26,13 +28,14 @@ Call(e) ==
          [] e.r = "regular" -> ~Was(e.b, "regular") /\ (C[e.b].restore # "none" => Was(e.b, "restore"))
          [] e.r = "initdef" -> ~Was(e.b, "initdef") /\ Was(e.b, "regular") /\ outv[e.b] = 0 /\ C[e.b].initdef
          [] e.r = "event"   -> Was(e.b, "regular")                          \* the synchronous steps ran first
+         [] OTHER           -> FALSE                                        \* (e.g. the early event failed)
     /\ called' = called \cup {<<e.b, e.r>>} /\ UNCHANGED <<outv, done>>
 Out(e) == /\ ~done /\ outv' = [outv EXCEPT ![e.b] = e.v] /\ UNCHANGED <<called, done>>
 Wait(e) ==
     /\ ~done /\ done' = TRUE
-    /\ LET R == I!Run(C, H(tid).order)
+    /\ LET R == I!RunX(C, H(tid).order, H(tid).first)
            expected == I!Success(R) /\ ~H(tid).cbfail
-       IN  /\ I!Success(R) = I!CanInit(C)                              \* (sanity: order independent)
+       IN  /\ (H(tid).first = 0 => I!Success(R) = I!CanInit(C))         \* (sanity: order independent)
            /\ e.ok = expected
            /\ e.ok => (e.outs = R.out /\ e.ready /\ e.cb = 1 /\ ~e.err)   \* all valid, simulation running
            /\ ~e.ok => e.err                                           \* terminated with an error
